@@ -16,13 +16,14 @@ import (
 func init() { Registry["C15"] = checkC15 }
 
 func checkC15(p *core.Prog, r *core.Report) {
-	r.Explanation = "Decides structural necessary conditions of the atomic-register behaviour: (R1) on every path of Lock/UnLock/wakeUpWaitLock that applies a value operation (ProcessLockData) and then answers, the reply's value argument is a GetLockData() result obtained before the operation, inside the same shard-mutex section; (R2) refusal replies are reached without ProcessLockData/ProcessRecoverLockData on the path; (R3) the operation switches of ProcessLockData and ProcessRecoverLockData have a case for every LOCK_DATA_COMMAND_TYPE_* constant; (R4) the Redis-style command names are registered identically in the leader and follower text protocols and in the converter; (R5) published value frames are immutable: no element store, copy destination or append base in the value-operation code derives from the manager's current frame (replies, undo records and the log still reference it). NOT decided: the byte surgery of each operation, numeric overflow, the Redis-style answers."
+	r.Explanation = "Decides structural necessary conditions of the atomic-register behaviour: (R1) on every path of Lock/UnLock/wakeUpWaitLock that applies a value operation (ProcessLockData) and then answers, the reply's value argument is a GetLockData() result obtained before the operation, inside the same shard-mutex section; (R2) refusal replies are reached without ProcessLockData/ProcessRecoverLockData on the path; (R3) the operation switches of ProcessLockData and ProcessRecoverLockData have a case for every LOCK_DATA_COMMAND_TYPE_* constant; (R4) the Redis-style command names are registered identically in the leader and follower text protocols and in the converter; (R5) published value frames are immutable: no element store, copy destination or append base in the value-operation code derives from the manager's current frame (replies, undo records and the log still reference it). (R6) the pre-operation value kept for a pending request (LockData.recoverData) is read before the call that clears it, never after. NOT decided: the byte surgery of each operation, numeric overflow, the Redis-style answers."
 	r.Assumptions = []string{"Go type checker and go/ssa are correct for /repo", "GetLockData returns the current frame without copying (so R5 matters)"}
 	c15R1(p, r)
 	c15R2(p, r)
 	c15R3(p, r)
 	c15R4(p, r)
 	c15R5(p, r)
+	c15R6(p, r)
 }
 
 func c15R1(p *core.Prog, r *core.Report) {
@@ -457,4 +458,88 @@ func recvName(fn *ssa.Function) string {
 		return nt.Obj().Name()
 	}
 	return ""
+}
+
+
+// c15R6: a request that changed a key's value keeps, in its LockData, the
+// value from before the operation (recoverData) - it is what an acknowledged
+// require-ack lock reports as "value before the operation" and what a failed
+// one restores. The finishing calls (ProcessAckClear and friends) drop it. So
+// on every path, a read of recoverData after a call that clears it yields nil:
+// the reply / the restore silently loses the previous value.
+func c15R6(p *core.Prog, r *core.Report) {
+	const rule = "C15/R6"
+	r.Rule(rule, "the pre-operation value kept for a pending request (LockData.recoverData) is read before the call that clears it, never after", 1)
+	rk := fk("server.LockData", "recoverData")
+	// callees that store nil into recoverData
+	clears := map[*ssa.Function]bool{}
+	for _, fn := range p.FuncsIn("server") {
+		for _, b := range fn.Blocks {
+			for _, ins := range b.Instrs {
+				if st, ok := ins.(*ssa.Store); ok {
+					if k, ok := storeKey(st.Addr); ok && k == rk {
+						if c, ok := st.Val.(*ssa.Const); ok && c.Value == nil {
+							clears[fn] = true
+						}
+					}
+				}
+			}
+		}
+	}
+	n := 0
+	for _, fn := range p.FuncsIn("server") {
+		if fn.Blocks == nil || clears[fn] {
+			continue
+		}
+		callsClear, reads := false, false
+		for _, b := range fn.Blocks {
+			for _, ins := range b.Instrs {
+				if c := core.StaticCallee(ins); c != nil && clears[c] {
+					callsClear = true
+				}
+				if u, ok := ins.(*ssa.UnOp); ok {
+					if fa, ok := u.X.(*ssa.FieldAddr); ok && core.FieldKeyOf(fa.X.Type(), fa.Field) == rk {
+						reads = true
+					}
+				}
+			}
+		}
+		if !callsClear || !reads {
+			continue
+		}
+		n++
+		name := core.FuncName(fn)
+		bad := false
+		ex := core.NewExplorer(p, core.Hooks{
+			Instr: func(x *core.X) {
+				if !x.Top() {
+					return
+				}
+				if c := core.StaticCallee(x.Ins); c != nil && clears[c] {
+					x.Set("cleared", core.Plain(argCanon(x, x.Ins, 0)))
+					return
+				}
+				if u, ok := x.Ins.(*ssa.UnOp); ok {
+					if fa, ok := u.X.(*ssa.FieldAddr); ok && core.FieldKeyOf(fa.X.Type(), fa.Field) == rk {
+						base := core.Plain(x.Canon(fa.X).S)
+						if c := x.Get("cleared"); c != "" && c == base {
+							bad = true
+							r.Violate(rule, name+": read of recoverData", x.Pos(), "the value from before the operation is read after the call that clears it (always nil here): an acknowledged request's reply loses the previous value / a rollback restores nothing", x.St.Trace)
+						}
+					}
+				}
+			},
+		})
+		ex.NoHist = true
+		ex.Run(fn, nil)
+		if ex.Imprecise != "" {
+			r.Fail("C15/R6 %s: %s", name, ex.Imprecise)
+		}
+		if !bad {
+			r.Hold(rule, name+": read of recoverData", p.Pos(fn.Pos()), "read before the clearing call on every path")
+		}
+	}
+	if n == 0 {
+		r.Fail("C15/R6: no function both reads recoverData and calls its clearing function")
+	}
 }
